@@ -120,9 +120,11 @@ def cmp_dict(ctx, cls, got, exp, scale, clause, keys, missing_is_zero=False, **d
 def cmp_subset(ctx, cls, got, exp, scale, clause, keys, **detail):
     """An explicit substance_keys request: exactly the requested keys, each with its reference value."""
     if isinstance(got, dict) and set(got) != set(keys):
-        ctx.fail(clause + ":key_set", requested=list(keys), missing=sorted(k for k in keys if k not in got),
+        missing = sorted(k for k in keys if k not in got)
+        ctx.fail(clause + ":key_set", requested=list(keys), missing=missing,
                  extra=sorted(str(k) for k in got if k not in keys), **detail)
-        return False
+        if missing:          # (fail returns only for an open known finding; the requested values are still judged)
+            return False
     return cmp_dict(ctx, cls, got, exp, scale, clause + ":value", keys, requested=list(keys), **detail)
 
 
@@ -221,11 +223,11 @@ def check_reaction(case, ctx):
         if not cmp_dict(ctx, cls, got_all, exp, scale, "rate:value_explicit_keys", subs, rxn=r, index=i):
             return
         # (b') proper subsets (single key, permuted, only bystanders): exactly the requested keys
-        for ks in _subsets(case):
-            if not set(ks) & set(own):
+        for req in _subsets(case):
+            if not set(req) & set(own):
                 ctx.label("subset_of_bystanders_only")
-            got_s = rx.rate(dict(variables), substance_keys=list(ks))
-            if not cmp_subset(ctx, cls, got_s, exp, scale, "rate:subset", ks, rxn=r, index=i):
+            got_s = rx.rate(dict(variables), substance_keys=list(req))
+            if not cmp_subset(ctx, cls, got_s, exp, scale, "rate:subset", req, rxn=r, index=i):
                 return
         # (c) nothing but the active reactants enters: change every other concentration, same result
         passive = [s for s in subs if s not in r["reac"]]
@@ -284,13 +286,13 @@ def check_system(case, ctx):
     if not cmp_dict(ctx, cls, got_all, exp, scale, "rates:value_explicit_keys", subs):
         return
     touched = set(k for r in sysd["rxns"] for k in G.rxn_keys(r))
-    for ks in _subsets(case):
-        if not set(ks) & touched:
+    for req in _subsets(case):
+        if not set(req) & touched:
             ctx.label("subset_of_nonparticipating_only")
-        got_s = rsys.rates(dict(variables), substance_keys=list(ks))
+        got_s = rsys.rates(dict(variables), substance_keys=list(req))
         if not unchanged.check("ReactionSystem.rates(substance_keys=subset)"):
             return
-        if not cmp_subset(ctx, cls, got_s, exp, scale, "rates:subset", ks):
+        if not cmp_subset(ctx, cls, got_s, exp, scale, "rates:subset", req):
             return
     perm = case["perm"]
     if perm != sorted(perm):
@@ -410,14 +412,13 @@ def check_cstr(case, ctx):
     if not cmp_dict(ctx, cls, got_all, exp, scale, "cstr:value_explicit_keys", subs, feed=sorted(fc)):
         return
     # (a') proper subsets of the substances
-    for ks in _subsets(case):
-        if not set(ks) & (participating | set(fc)):
+    for req in _subsets(case):
+        if not set(req) & (participating | set(fc)):
             ctx.label("subset_of_nonparticipating_unfed_only")
-        got_s = rsys.rates(dict(variables), substance_keys=list(ks), cstr_fr_fc=(FR_KEY, dict(fcmap)))
-        extra = sorted(k for k in got_s if k not in ks) if isinstance(got_s, dict) else []
-        if not cmp_subset(ctx, cls, got_s, exp, scale, "cstr:subset", ks, feed=sorted(fc),
-                          extra_are_all_fed=bool(extra) and all(k in fc for k in extra)):
-            break
+        got_s = rsys.rates(dict(variables), substance_keys=list(req), cstr_fr_fc=(FR_KEY, dict(fcmap)))
+        extra = sorted(k for k in got_s if k not in req) if isinstance(got_s, dict) else []
+        cmp_subset(ctx, cls, got_s, exp, scale, "cstr:subset", req, feed=sorted(fc),
+                   extra_are_all_fed=bool(extra) and all(k in fc for k in extra))
     # (b) default keys (what get_odesys(cstr=True) does)
     if lonely:
         ctx.label("feed_to_nonparticipating")
@@ -605,9 +606,9 @@ def check_history(case, ctx):
         if not cmp_dict(ctx, cls, got, exp, scale, "history:rates", subs, missing_is_zero=True, evaluation=n_eval,
                         substances=subs):
             return
-        for ks in _subsets(case, present=subs):
-            got_s = rsys.rates(dict(variables), substance_keys=list(ks))
-            if not cmp_subset(ctx, cls, got_s, exp, scale, "history:rates:subset", ks, evaluation=n_eval,
+        for req in _subsets(case, present=subs):
+            got_s = rsys.rates(dict(variables), substance_keys=list(req))
+            if not cmp_subset(ctx, cls, got_s, exp, scale, "history:rates:subset", req, evaluation=n_eval,
                               substances=subs):
                 return
         conc_list = [G.native(case[which][k]) for k in subs]
